@@ -121,7 +121,7 @@ def interpret_build(ctx: Ctx, is_coro: bool, tags: Tuple[str, ...], single: bool
     node of the given kind; the traversal, the validations and the node-map bookkeeping are stubbed.  Returns the list
     of (abstract DAG object, builder object, calls of stubbed methods in order) over all resolutions of unknowns."""
     p = ctx.p
-    from .bd import _builder_class, _traverse_function
+    from .bd import _builder_class, _reads_annotations, _traverse_function
     b = _builder_class(ctx)
     build = b.methods.get('build')
     if build is None:
@@ -134,7 +134,7 @@ def interpret_build(ctx: Ctx, is_coro: bool, tags: Tuple[str, ...], single: bool
         stubs: Dict[str, Any] = {}
         for m in b.methods.values():
             if (m.fid == trav_fid or 'validate' in m.name or m.name == '_add_node_to_map'
-                    or (m.name != 'build' and ('__annotations__' in unparse(m.node) or 'signature(' in unparse(m.node)))):
+                    or (m.name != 'build' and _reads_annotations(ctx, m))):
                 stubs[m.fid] = (lambda name: (lambda interp, a, k, s_: calls.append(name)))(m.name)
         for u in p.functions.values():
             if u.parent is None and u.cls is None and u.name == 'get_callable_run_method':
@@ -492,16 +492,20 @@ def rule_dispatch_transparent(ctx: Ctx, out: Collector) -> None:
                 wa = w.node.args
                 wparams = [x.arg for x in getattr(wa, 'posonlyargs', [])] + [x.arg for x in wa.args]
                 wva, wkw = (wa.vararg.arg if wa.vararg else None), (wa.kwarg.arg if wa.kwarg else None)
-                passes = False
-                for n_ in ast.walk(w.node):
-                    if isinstance(n_, ast.Return) and isinstance(n_.value, ast.Call) and isinstance(n_.value.func, ast.Name) \
-                            and wparams and n_.value.func.id == wparams[0]:
-                        cs = n_.value
-                        st_ = [x.value.id for x in cs.args if isinstance(x, ast.Starred) and isinstance(x.value, ast.Name)]
-                        kw_ = [k.value.id for k in cs.keywords if k.arg is None and isinstance(k.value, ast.Name)]
-                        others = [x for x in cs.args if not isinstance(x, ast.Starred)] + [k for k in cs.keywords if k.arg is not None]
-                        if st_ == [wva] and kw_ == [wkw] and not others and len(wparams) == 1:
-                            passes = True
+                # decided by interpreting the wrapper with an opaque body: the body is called exactly once, with exactly the
+                # arguments the wrapper was given, and what the wrapper returns is the body's value
+                def run_w(oracle: Oracle, w=w):
+                    calls = []
+                    tok = AObj(('ext', 'Value'), {}, tag='body-value')
+
+                    def body(args_, kwargs_):
+                        calls.append((list(args_), dict(kwargs_)))
+                        return tok
+                    a1, a2, k1 = (AObj(('ext', 'Arg'), {}, tag=t_) for t_ in ('a1', 'a2', 'k1'))
+                    r = Interp(ctx.p, oracle, ext_stubs={'body': body}).call_unit(w, [AExt('body'), a1, a2], {'k': k1})
+                    return r is tok and len(calls) == 1 and calls[0][0] == [a1, a2] and calls[0][1] == {'k': k1}
+                outs_w = enumerate_outcomes(run_w)
+                passes = bool(outs_w) and all(o[0] == 'value' and o[1] is True for o in outs_w) and len(wparams) == 1
                 if not passes:
                     problems.append(f'{ev.text(60)}: the wrapper {w.name} does not call the body with exactly the arguments it was given')
                     continue
